@@ -81,6 +81,7 @@ type mergeCtx struct {
 }
 
 type Explorer struct {
+	siteFr *frame // frame of the last symbolic branch (diagnostics only)
 	in                *interpreter
 	S                 *smt.Solver
 	PC                []*smt.Term
@@ -250,6 +251,14 @@ func backends(q *smt.Query) []string {
 func (e *Explorer) check(target *smt.Term, wantModel bool) (smt.Result, smt.Model) {
 	if target.IsFalse() {
 		return smt.Unsat, nil
+	}
+	if e.QueryLog != nil {
+		t0 := time.Now()
+		defer func() {
+			if d := time.Since(t0); d > 5*time.Second && e.siteFr != nil {
+				fmt.Fprintf(e.QueryLog, "SLOW %v label=%q at %s\n", d, e.curLabel, e.siteFr.where())
+			}
+		}()
 	}
 	as := append(e.slice(target), target)
 	q := smt.BuildQuery(as)
